@@ -44,7 +44,9 @@ GROUP_KEYS = [None, "a", "b", "sp.a", "n.x", "sp.n.x", "n.y", "doc.d", "doc.a", 
               "call:a", "call:id"]
 DEFAULTS = [None, None, None, -7, "zz", 0]
 CLI_VALUES = ["1", "0", "-1", "2", "1.0", "0.5", "-2.0", "1e0", "true", "false", "null", "a", "ab", "b", "True",
-              "None", "/a/", "/^a/", "/b$/", "/", "//", "!", '{"$lt": 1}', '{"$in": [1, "a"]}', "[1, 2]", "[1]",
+              "None", "/a/", "/^a/", "/b$/", "/", "//", "!",
+              # characters a shell-style tokeniser would treat specially (string filters are split on whitespace only)
+              "/^\\d$/", "/^1\\.0$/", "/\\w+/", "a\\b", "a'b", "'a'", "#a", "a;b", '{"$lt": 1}', '{"$in": [1, "a"]}', "[1, 2]", "[1]",
               '{"$exists": false}', '"a"', "1_0", " 1", "+1", "1.", ".5", "0x10", '{"$type": "int"}', '{"x": 1}']
 CLI_KEYS = ["a", "b", "sp.a", "n.x", "doc.d", "doc.a", "doc.m.x", "a.$lt", "doc.d.$gte", "n", "a.$exists", "x",
             "spin", "docs", "sp.spin", "doc.spin", "spin.$gte"]
@@ -115,7 +117,8 @@ def _items(rng, tier_scale):
         items.append({"kind": "spell", "filter": f, "seed": rng.randrange(1 << 30)})
     for _ in range(4):
         items.append({"kind": "cli", "tokens": _rand_cli_tokens(rng) if rng.random() < 0.8 else _whole_json_tokens(rng)})
-    items.append({"kind": "cursor", "filter": rng.choice([{}, {}, {"a": {"$exists": True}}, qc.rand_filter(rng, 1)]),
+    flat = {k: rng.choice([None, None, 1, 0, "a", True, 1.0]) for k in rng.sample(["a", "b", "spin"], rng.choice([1, 1, 2]))}
+    items.append({"kind": "cursor", "filter": rng.choice([{}, {"a": {"$exists": True}}, qc.rand_filter(rng, 1), flat, flat]),
                   "seed": rng.randrange(1 << 30)})
     items += _group_items(rng, 5)
     return items
